@@ -3,6 +3,7 @@ package c07
 
 import (
 	"fmt"
+	"io"
 	"regexp"
 	"runtime"
 	"testing/synctest"
@@ -31,6 +32,9 @@ type Case struct {
 	Version     string      `json:"version"`     // netconf
 	Order       [][2]string `json:"order"`       // ordering constraints "A before B" over yield points
 	SecondClose bool        `json:"second_close"`
+	// CloseFails: the transport's Close reports an error (as ssh sessions do with io.EOF once the
+	// peer has closed the stream); Close of the driver may then return it, everything else holds.
+	CloseFails bool `json:"close_fails,omitempty"`
 	// RealTime runs the scenario on the wall clock without a bubble (race detector tier; also
 	// admits ReadDelay 0, which spins and cannot run on the virtual clock).
 	RealTime bool `json:"real_time,omitempty"`
@@ -49,6 +53,7 @@ func gen(t *rapid.T) Case {
 		WarmOps:     rapid.IntRange(0, 2).Draw(t, "warm"),
 		Version:     rapid.SampledFrom([]string{"1.0", "1.1"}).Draw(t, "version"),
 		SecondClose: rapid.IntRange(0, 3).Draw(t, "second") == 0,
+		CloseFails:  rapid.IntRange(0, 3).Draw(t, "closeFails") == 0,
 	}
 
 	if c.State == "data-concurrent" || c.State == "err-concurrent" || c.State == "eof-concurrent" {
@@ -221,6 +226,10 @@ func run1(c Case) ev.Verdict {
 	}
 
 	s.pipe.CloseMode = c.CloseMode
+
+	if c.CloseFails {
+		s.pipe.CloseErr = io.EOF
+	}
 	rd := time.Duration(c.ReadDelayNS)
 	patience := 2 * time.Second
 	if c.RealTime {
